@@ -51,6 +51,7 @@ import M4riProofs.EchelonTop
 import M4riProofs.GenTie
 import M4riProofs.GenTieAlg
 import M4riProofs.GenTieDuff
+import M4riProofs.GenTieEch
 namespace M4ri.Props.C02
 open M4ri M4ri.BMat
 
@@ -256,5 +257,16 @@ theorem c_text_naive_gauss (M : Mzd) (full : Bool) (hwf : M.WF) (hp : M.padZero)
 /-! ### tie to the C text: kernels with Duff devices (generated by vlib/ctrans.py on every check, proved equal to the model in
     GenTieDuff.lean; `duff_eq`: first pass from the entry label + complete passes = `wide` single steps) -/
 #check @M4ri.GenTieDuff.mzdProcessRows_eq_contract
+
+
+/-! ### tie to the C text: the COMPLETE C function `mzd_echelonize_pluq` (both values of `full`; the three `r mod 64` cases of the back
+    substitution through windows and word-column copies, `U := I`, column permutation; `full = 0`: L cleared, pivots written; rows below
+    the rank zeroed) is generated by vlib/ctrans.py on every check; with PLUQ/PLE, the triangular solve, copies and the column permutation
+    instantiated by the model it equals the model `echelonizePluq` (GenTieEch.lean; only the SHAPES of the factorisation are used) -/
+#check @M4ri.GenTieEch.echelonizePluq_eq
+#check @M4ri.GenTieEch.echelonizePluq_full_eq
+#check @M4ri.GenTieEch.echelonizePluq_ple_eq
+#check @M4ri.GenTieEch.solveCol
+#check @M4ri.GenTieEch.mzdSetUi_one_eq
 
 end M4ri.Props.C02
